@@ -631,3 +631,284 @@ pub fn c15(a: &Args) -> CaseSet {
     }
     cs
 }
+
+// ------------------------------------------------------------------------------------------------
+// differentiation
+const DIFF_UN: [&str; 20] = ["sqrt", "ln", "log", "log10", "log2", "exp", "sin", "cos", "tan", "asin", "acos", "atan", "sinh", "cosh", "tanh", "asinh", "acosh", "atanh", "-", "+"];
+const NODIFF_UN: [&str; 6] = ["abs", "signum", "floor", "ceil", "round", "cbrt"];
+fn op_idx(tb: &[OpSpec], name: &str) -> usize { tb.iter().position(|o| o.repr == name).unwrap_or_else(|| panic!("no operator {name}")) }
+
+fn gen_diff(r: &mut Rng, tb: &[OpSpec], depth: usize, allow_nodiff: bool, cond_ok: bool) -> Chain {
+    let leaf = |r: &mut Rng| if r.chance(1, 2) { Atom::Var(["x", "y", "z"][r.below(3)].to_string()) } else { Atom::Lit(["0.5", "2", "1.3", "3", "1", "0", "0.25"][r.below(7)].to_string()) };
+    let atom = |r: &mut Rng, depth: usize| -> Atom {
+        let c = r.below(12);
+        if depth > 3 || c < 4 { leaf(r) }
+        else if c < 7 { Atom::Group(vec![], gen_diff(r, tb, depth + 1, allow_nodiff, cond_ok)) }
+        else {
+            let name = if allow_nodiff && r.chance(1, 12) { NODIFF_UN[r.below(NODIFF_UN.len())] } else { DIFF_UN[r.below(DIFF_UN.len())] };
+            let mut us = vec![op_idx(tb, name)];
+            if r.chance(1, 4) { us.push(op_idx(tb, DIFF_UN[r.below(DIFF_UN.len())])); }
+            Atom::Group(us, gen_diff(r, tb, depth + 1, allow_nodiff, cond_ok))
+        }
+    };
+    let bins = ["+", "-", "*", "/", "^", "+", "*"];
+    let n = r.below(3);
+    let first = Box::new(atom(r, depth));
+    let mut rest = vec![];
+    for _ in 0..n {
+        let name = if allow_nodiff && r.chance(1, 15) { ["min", "max", "atan2"][r.below(3)] } else { bins[r.below(bins.len())] };
+        rest.push((op_idx(tb, name), atom(r, depth)));
+    }
+    Chain { first, rest }
+}
+/// central differences of the reference term; None where the function is not smooth enough to judge
+fn num_partial(f: &Term, tb: &[OpSpec], pt: &[f64], i: usize) -> Option<f64> {
+    let ev = |h: f64| { let mut p = pt.to_vec(); p[i] += h; interp(f, tb, &p) };
+    let h = 1e-5;
+    let d1 = (ev(h) - ev(-h)) / (2.0 * h);
+    let d2 = (ev(2.0 * h) - ev(-2.0 * h)) / (4.0 * h);
+    if !d1.is_finite() || !d2.is_finite() || (d1 - d2).abs() > 1e-4 * (1.0 + d1.abs()) || d1.abs() > 1e5 { None } else { Some(d1) }
+}
+fn points(nv: usize) -> Vec<Vec<f64>> { (0..4).map(|t| (0..nv).map(|k| 0.37 + 0.211 * k as f64 + 0.083 * t as f64 + 0.29 * ((k + t) % 2) as f64).collect()).collect() }
+
+/// C05: the derivative term evaluates to the derivative (oracle: central differences of the reference term)
+pub fn c05(a: &Args) -> CaseSet {
+    let mut cs = CaseSet::default();
+    let mut r = Rng::new(a.seed ^ 0x05);
+    let tb = float_table();
+    for text in ["x", "x*x", "sin(x)*y", "x^2", "2^x", "x^y", "sqrt(x)/y", "ln(x*y)", "tan(x)", "-cos(sin(x))", "x/2", "1/x", "exp(-x^2)", "atanh(x/2)", "acosh(1+x)", "log10(x)+log2(y)", "+-+x", "abs(x)", "min(x, y)", "floor(x)+x", "x+y*z-x/y^z"] {
+        for deep in [false, true] {
+            let base = if deep { Prog::Deep(text.into()) } else { Prog::Flat(text.into()) };
+            cs.add(&tb, Prog::Partial(vec![0], 0, Box::new(base)), vec![Query::Vars, Query::Relaxed(3), Query::Unparse], format!("corpus: d/dv0 {text}"), "corpus", 3, |_| (None, String::new()));
+        }
+    }
+    for i in 0..a.n {
+        let allow_nodiff = i % 9 == 0;
+        let ch = gen_diff(&mut r, &tb, 0, allow_nodiff, false);
+        let text = render(&ch, &tb, &mut r, &RenderCfg::plain());
+        let vars = sorted_vars(&ch); let nv = vars.len();
+        if nv == 0 { continue }
+        let f = ref_chain(&ch, &tb, &vars);
+        // an operator without a rule only matters where it is applied to something that depends on a variable
+        // (variable-free sub-expressions are folded to literals before differentiation)
+        let has_nodiff = {
+            fn dep(t: &Term) -> bool { match t { Term::Var(_) => true, Term::Un(_, a) => dep(a), Term::Bin(_, a, b) => dep(a) || dep(b), _ => false } }
+            fn has(t: &Term, tb: &[OpSpec]) -> bool { match t {
+                Term::Un(k, a) => (dep(a) && NODIFF_UN.contains(&tb[*k].repr.as_str())) || has(a, tb),
+                Term::Bin(k, a, b) => ((dep(a) || dep(b)) && ["min", "max", "atan2"].contains(&tb[*k].repr.as_str())) || has(a, tb) || has(b, tb), _ => false } }
+            has(&f, &tb) };
+        let order = if r.chance(1, 4) { 2 } else { 1 };
+        let idxs: Vec<usize> = (0..order).map(|_| r.below(nv)).collect();
+        let base = match i % 3 { 0 => Prog::Flat(text.clone()), 1 => Prog::Deep(text.clone()), _ => Prog::ToDeep(Box::new(Prog::FlatWo(text.clone()))) };
+        let prog = Prog::Partial(idxs.clone(), 0, Box::new(base));
+        let qs = vec![Query::Vars, Query::Eval(nv), Query::Unparse];
+        let (tb2, vars2, f2) = (tb.clone(), vars.clone(), f.clone());
+        cs.add(&tb, prog, qs, format!("d/d{idxs:?} {text}"), if has_nodiff { "missing-rule" } else { "differentiable-tree" }, n_operands(&ch), move |obs| {
+            if has_nodiff { return (Some(obs[0] == Obs::E), format!("an operator without a derivative rule must make differentiation fail: {}", pretty_obs(&obs[0]))) }
+            match (&obs[0], &obs[1]) {
+                (Obs::S(v), Obs::T(d)) => {
+                    if *v != vars2 { return (Some(false), format!("variables of the derivative {v:?}, of the original {vars2:?}")) }
+                    if idxs.len() > 1 { return (None, "higher order: value judged through C09".into()) }
+                    for pt in points(vars2.len()) {
+                        if let Some(want) = num_partial(&f2, &tb2, &pt, idxs[0]) {
+                            let got = interp(d, &tb2, &pt);
+                            if !got.is_finite() { continue }   // outside the interior of the derivative's domain
+                            if (got - want).abs() > 1e-3 * (1.0 + want.abs()) { return (Some(false), format!("at {pt:?}: derivative expression gives {got}, central differences give {want}")) }
+                        }
+                    }
+                    (Some(true), String::new())
+                }
+                (Obs::E, _) => (Some(false), "differentiation failed although every operator has a rule".into()),
+                _ => (Some(false), format!("{} / {}", pretty_obs(&obs[0]), pretty_obs(&obs[1]))),
+            }
+        });
+    }
+    cs
+}
+
+/// C09: differentiation bookkeeping
+pub fn c09(a: &Args) -> CaseSet {
+    let mut cs = CaseSet::default();
+    let mut r = Rng::new(a.seed ^ 0x09);
+    let tb = float_table();
+    for i in 0..a.n {
+        let ch = gen_diff(&mut r, &tb, 2, false, false);
+        let text = render(&ch, &tb, &mut r, &RenderCfg::plain());
+        let vars = sorted_vars(&ch); let nv = vars.len();
+        let f = ref_chain(&ch, &tb, &vars);
+        let mk = |r: &mut Rng| match r.below(3) { 0 => Prog::Flat(text.clone()), 1 => Prog::Deep(text.clone()), _ => Prog::FlatWo(text.clone()) };
+        // index sequences of length 0..4 incl. out-of-range entries
+        // order 4 only for small expressions (the size of a derivative grows quickly)
+        let len = if n_operands(&ch) <= 2 { r.below(5) } else if n_operands(&ch) <= 4 { r.below(4) } else { r.below(3) };
+        let bad = r.chance(1, 3);
+        let mut idxs: Vec<usize> = (0..len).map(|_| if nv == 0 { 0 } else { r.below(nv) }).collect();
+        if bad || nv == 0 { if idxs.is_empty() { idxs.push(nv) } else { let k = r.below(idxs.len()); idxs[k] = nv + r.below(3); } }
+        let out_of_range = idxs.iter().any(|j| *j >= nv);
+        let mode = if i % 5 == 0 { 1 + r.below(2) } else { 0 };
+        let prog = Prog::Partial(idxs.clone(), mode, Box::new(mk(&mut r)));
+        // the same derivative as a sequence of single steps
+        let seq = idxs.iter().fold(mk(&mut r), |p, j| Prog::Partial(vec![*j], mode, Box::new(p)));
+        let qs = vec![Query::Vars, Query::Eval(nv)];
+        let (tb2, vars2, f2, idxs2) = (tb.clone(), vars.clone(), f.clone(), idxs.clone());
+        let i1 = cs.add(&tb, prog, qs.clone(), format!("d/d{idxs:?} {text}"), if out_of_range { "index-out-of-range" } else { "index-sequence" }, n_operands(&ch).max(2), move |obs| {
+            if out_of_range { return (Some(obs[0] == Obs::E), format!("an index >= {} must be rejected: {}", vars2.len(), pretty_obs(&obs[0]))) }
+            match (&obs[0], &obs[1]) {
+                (Obs::S(v), Obs::T(d)) => {
+                    if *v != vars2 { return (Some(false), format!("variables {v:?} vs {vars2:?}")) }
+                    if idxs2.is_empty() { // order zero is the identity
+                        for pt in points(vars2.len()) { let (x, y) = (interp(d, &tb2, &pt), interp(&f2, &tb2, &pt)); if x.is_finite() && y.is_finite() && (x - y).abs() > 1e-9 * (1.0 + y.abs()) { return (Some(false), format!("order zero changed the value at {pt:?}: {x} vs {y}")) } }
+                    }
+                    (Some(true), String::new())
+                }
+                _ => (Some(false), format!("{} / {}", pretty_obs(&obs[0]), pretty_obs(&obs[1]))),
+            }
+        });
+        if !out_of_range && !idxs.is_empty() {
+            let i2 = cs.add(&tb, seq, qs.clone(), format!("sequential d/d{idxs:?} {text}"), "sequential-steps", n_operands(&ch).max(2), |_| (None, String::new()));
+            // iterated == sequential (numerically, wherever both are finite); mixed partials symmetric
+            let (o1, o2) = (cs.cases[i1].obs.clone(), cs.cases[i2].obs.clone());
+            let mut ok = o1[0] == o2[0]; let mut note = if ok { String::new() } else { "variable lists differ".to_string() };
+            if let (Obs::T(d1), Obs::T(d2)) = (&o1[1], &o2[1]) {
+                for pt in points(nv) { let (x, y) = (interp(d1, &tb, &pt), interp(d2, &tb, &pt)); if x.is_finite() && y.is_finite() && (x - y).abs() > 1e-6 * (1.0 + y.abs()) { ok = false; note = format!("iterated {x} vs sequential {y} at {pt:?}"); } }
+            } else { ok = false; note = "one of the two failed".into(); }
+            cs.cases[i2].oracle_ok = Some(ok); cs.cases[i2].oracle_note = note;
+            if idxs.len() == 2 && idxs[0] != idxs[1] {
+                let swapped = Prog::Partial(vec![idxs[1], idxs[0]], mode, Box::new(mk(&mut r)));
+                let i3 = cs.add(&tb, swapped, qs.clone(), format!("d/d[{},{}] {text}", idxs[1], idxs[0]), "mixed-partials", n_operands(&ch).max(2), |_| (None, String::new()));
+                if let (Obs::T(d1), Obs::T(d3)) = (&o1[1], &cs.cases[i3].obs[1].clone()) {
+                    let mut ok = true; let mut note = String::new();
+                    for pt in points(nv) { let (x, y) = (interp(d1, &tb, &pt), interp(d3, &tb, &pt)); if x.is_finite() && y.is_finite() && x.abs() < 1e6 && (x - y).abs() > 1e-5 * (1.0 + y.abs()) { ok = false; note = format!("mixed partials {x} vs {y} at {pt:?}"); } }
+                    cs.cases[i3].oracle_ok = Some(ok); cs.cases[i3].oracle_note = note;
+                }
+            }
+        }
+    }
+    cs
+}
+
+/// C10 (second half): the arithmetic operators on deep expressions with their neutral-element shortcuts
+pub fn c10s(a: &Args) -> CaseSet {
+    let mut cs = CaseSet::default();
+    let mut r = Rng::new(a.seed ^ 0x1010);
+    let tb = float_table();
+    let seeds = ["0", "1", "x", "y", "x+1", "0*x", "1*y", "2", "x-x", "sin(0)", "cos(0)", "x*y", "(x)", "-(0)", "+1", "0.0", "1.0", "z^1", "z^0", "-1", "(0)", "((1))", "sin(1)"];
+    for _ in 0..a.n {
+        let mut pool: Vec<(Prog, Term, Vec<String>)> = vec![];   // program, reference term over its own sorted variables
+        for _ in 0..4 {
+            let t = seeds[r.below(seeds.len())];
+            // reference through the tree of the text: parse it with the implementation-independent generator? the seeds are
+            // simple enough to take the unfolded flat parse as reference term (C01 decides that route separately)
+            set_table(&tb);
+            let f = match FE::parse_wo_compile(Box::leak(t.to_string().into_boxed_str())) { Ok(f) => f, Err(_) => continue };
+            use exmex::Express;
+            let vars: Vec<String> = f.var_names().to_vec();
+            let term = f.eval(&symvals(vars.len())).unwrap();
+            pool.push((if r.chance(1, 2) { Prog::Deep(t.to_string()) } else { Prog::Flat(t.to_string()) }, term, vars));
+        }
+        if pool.len() < 2 { continue }
+        let steps = 1 + r.below(6);
+        for _ in 0..steps {
+            let (i, j) = (r.below(pool.len()), r.below(pool.len()));
+            let k = r.below(6);
+            let (pa, ta, va) = pool[i].clone(); let (pb, tbm, vb) = pool[j].clone();
+            let mut vars: Vec<String> = va.iter().chain(vb.iter()).cloned().collect(); vars.sort(); vars.dedup();
+            let remap = |t: &Term, from: &[String]| -> Term { fn go(t: &Term, from: &[String], to: &[String]) -> Term { match t { Term::Var(i) => Term::Var(to.iter().position(|v| *v == from[*i]).unwrap()), Term::Un(k, a) => Term::Un(*k, Box::new(go(a, from, to))), Term::Bin(k, a, b) => Term::Bin(*k, Box::new(go(a, from, to)), Box::new(go(b, from, to))), x => x.clone() } } go(t, from, &vars) };
+            let (ra, rb) = (remap(&ta, &va), remap(&tbm, &vb));
+            let (np, nt, nv) = if k < 5 {
+                let name = ["+", "-", "*", "/", "^"][k];
+                (Prog::Arith(k, Box::new(pa), Box::new(pb)), tbin(op_idx(&tb, name), ra, rb), vars.clone())
+            } else { (Prog::Neg(Box::new(pa)), tun(op_idx(&tb, "-"), ta.clone()), va.clone()) };
+            pool.push((np, nt, nv));
+        }
+        let (prog, want, vars) = pool.last().unwrap().clone();
+        let nv = vars.len();
+        let qs = vec![Query::Vars, Query::Eval(nv)];
+        let (tb2, vars2) = (tb.clone(), vars.clone());
+        cs.add(&tb, prog, qs, format!("{steps} arithmetic steps"), "shortcuts", steps + 1, move |obs| {
+            match (&obs[0], &obs[1]) {
+                (Obs::E, _) => (None, "rejected (0^0)".into()),
+                (Obs::S(v), Obs::T(got)) => {
+                    if *v != vars2 { return (Some(false), format!("variables {v:?}, expected the sorted union {vars2:?}")) }
+                    for pt in points(vars2.len()) {
+                        let w = interp(&want, &tb2, &pt);
+                        if !all_finite(&want, &tb2, &pt) { continue }   // the property speaks about assignments where the unsimplified form is finite
+                        let g = interp(got, &tb2, &pt);
+                        if !(g == w || (g - w).abs() <= 1e-9 * (1.0 + w.abs())) { return (Some(false), format!("value {g} vs unsimplified {w} at {pt:?}")) }
+                    }
+                    (Some(true), String::new())
+                }
+                _ => (Some(false), format!("{} / {}", pretty_obs(&obs[0]), pretty_obs(&obs[1]))),
+            }
+        });
+    }
+    cs
+}
+/// every intermediate value of the term is finite and no power has base zero with a non-positive exponent
+fn all_finite(t: &Term, tb: &[OpSpec], pt: &[f64]) -> bool {
+    let v = interp(t, tb, pt);
+    v.is_finite() && match t {
+        Term::Un(_, a) => all_finite(a, tb, pt),
+        Term::Bin(k, a, b) => all_finite(a, tb, pt) && all_finite(b, tb, pt) && !(tb[*k].repr == "^" && interp(a, tb, pt) == 0.0 && interp(b, tb, pt) <= 0.0),
+        _ => true }
+}
+
+/// C18: piecewise expressions over the value table's names, on the term algebra
+pub fn c18(a: &Args) -> CaseSet {
+    let mut cs = CaseSet::default();
+    let mut r = Rng::new(a.seed ^ 0x18);
+    let tb = val_table();
+    let conds = ["x > 0.7", "y <= 0.5", "x < y", "x >= 1", "x + y > 1.3", "x != 2", "x == y"];
+    fn gen_pw(r: &mut Rng, tb: &[OpSpec], depth: usize, conds: &[&str]) -> String {
+        if depth < 2 && r.chance(1, 2) {
+            let c = conds[r.below(conds.len())];
+            let (a, b) = (gen_pw(r, tb, depth + 1, conds), gen_pw(r, tb, depth + 1, conds));
+            if r.chance(1, 2) { format!("({a}) if {c} else ({b})") } else { format!("2 * (({a}) if {c} else ({b})) + x") }
+        } else {
+            let ch = gen_diff_val(r, tb, 2);
+            render(&ch, tb, r, &RenderCfg::plain())
+        }
+    }
+    fn gen_diff_val(r: &mut Rng, tb: &[OpSpec], depth: usize) -> Chain {
+        // the differentiable operators of the value table (no log: `log` exists, all the rule names exist there)
+        let leaf = |r: &mut Rng| if r.chance(1, 2) { Atom::Var(["x", "y"][r.below(2)].to_string()) } else { Atom::Lit(["0.5", "2", "1.5", "3", "1"][r.below(5)].to_string()) };
+        let atom = |r: &mut Rng, depth: usize| -> Atom {
+            let c = r.below(10);
+            if depth > 3 || c < 5 { leaf(r) } else if c < 7 { Atom::Group(vec![], gen_diff_val(r, tb, depth + 1)) }
+            else { let name = ["sin", "cos", "exp", "sqrt", "ln", "tanh", "-", "atan", "log10"][r.below(9)]; Atom::Group(vec![op_idx(tb, name)], gen_diff_val(r, tb, depth + 1)) } };
+        let n = r.below(3); let first = Box::new(atom(r, depth)); let mut rest = vec![];
+        for _ in 0..n { rest.push((op_idx(tb, ["+", "-", "*", "/", "+", "*"][r.below(6)]), atom(r, depth))); }
+        Chain { first, rest }
+    }
+    for text in ["x/2", "log10(y-x/3)", "(x*x) if x > 1 else (x/3)", "x if x > y else y", "2*((x*y) if x < y else (x+y))+x", "(x/3) if x != 2 else (y/3)"] {
+        cs.add(&tb, Prog::Partial(vec![0], 0, Box::new(Prog::Flat(text.into()))), vec![Query::Vars, Query::Relaxed(2), Query::Unparse], format!("corpus: {text}"), "corpus", 3, |_| (None, String::new()));
+    }
+    for i in 0..a.n {
+        let text = gen_pw(&mut r, &tb, 0, &conds);
+        set_table(&tb);
+        use exmex::Express;
+        let f = match FE::parse_wo_compile(Box::leak(text.clone().into_boxed_str())) { Ok(f) => f, Err(_) => continue };
+        let vars: Vec<String> = f.var_names().to_vec(); let nv = vars.len();
+        if nv == 0 { continue }
+        let fterm = f.eval(&symvals(nv)).unwrap();
+        let idx = r.below(nv);
+        let base = if i % 2 == 0 { Prog::Flat(text.clone()) } else { Prog::Deep(text.clone()) };
+        let (tb2, vars2) = (tb.clone(), vars.clone());
+        cs.add(&tb, Prog::Partial(vec![idx], 0, Box::new(base)), vec![Query::Vars, Query::Eval(nv), Query::Unparse], format!("d/dv{idx} {text}"), if text.contains(" if ") { "piecewise" } else { "arithmetic" }, 3, move |obs| {
+            match (&obs[0], &obs[1]) {
+                (Obs::S(v), Obs::T(d)) => {
+                    if *v != vars2 { return (Some(false), format!("variables {v:?} vs {vars2:?}")) }
+                    for pt in points(vars2.len()) {
+                        if let Some(want) = num_partial(&fterm, &tb2, &pt, idx) {
+                            let got = interp(d, &tb2, &pt);
+                            if !got.is_finite() { continue }
+                            if (got - want).abs() > 1e-3 * (1.0 + want.abs()) { return (Some(false), format!("at {pt:?}: derivative expression gives {got}, central differences of the selected branch give {want}")) }
+                        }
+                    }
+                    (Some(true), String::new())
+                }
+                _ => (Some(false), format!("{} / {}", pretty_obs(&obs[0]), pretty_obs(&obs[1]))),
+            }
+        });
+    }
+    cs
+}
